@@ -147,6 +147,29 @@ func opsOn(k *run.K, t model.Tree) {
 	}
 	base := tuples(t, nil)
 	shared.ConcreteAgree(k, g, "concrete-entry", concreteCalls, nil)
+	// a sequence handed out earlier keeps its values whatever is dumped afterwards (also from geometries
+	// that share members with g and whose storage has spare capacity, as parsed geometries do)
+	if pg, perr := geom.UnmarshalWKT(g.AsText(), geom.NoValidate{}); perr == nil {
+		var first geom.Sequence
+		if !k.Lib("nopanic", func() { first = pg.DumpCoordinates() }) {
+			keep := shared.Digest(first)
+			k.Lib("nopanic", func() {
+				_ = pg.DumpCoordinates()
+				_ = geom.NewGeometryCollection([]geom.Geometry{pg, pg.Reverse()}).DumpCoordinates()
+				_ = pg.Reverse().DumpCoordinates()
+				_ = pg.ForceCCW().DumpCoordinates()
+				_ = pg.ForceCW().DumpCoordinates()
+				if pg.IsGeometryCollection() { // the same first members followed by something else
+					ms := pg.MustAsGeometryCollection().Dump()
+					if len(ms) > 1 {
+						ms[len(ms)-1] = geom.NewPointXY(-77, -77).AsGeometry().ForceCoordinatesType(pg.CoordinatesType())
+						_ = geom.NewGeometryCollection(ms).DumpCoordinates()
+					}
+				}
+			})
+			k.Check("preserve-DumpCoordinates", shared.Digest(first) == keep, "a Sequence returned by DumpCoordinates changed after later DumpCoordinates calls on related geometries")
+		}
+	}
 	// ForceCoordinatesType to every target, Force2D
 	for _, target := range model.CTypes {
 		var f geom.Geometry
